@@ -9,7 +9,7 @@
    wf_out = "absent, or empty, or exactly one header followed by complete rows with distinct names". *)
 From Coq Require Import Permutation.
 From Pan Require Import Base.Common Model.Aggregator Proofs.AggBase Proofs.AggInv Proofs.AggSess Proofs.AggFinal
-  Proofs.AggProgress Proofs.AggOracle Proofs.AggC17 Proofs.AggProg Proofs.AggMulti.
+  Proofs.AggProgress Proofs.AggOracle Proofs.AggC17 Proofs.AggProg Proofs.AggMulti Model.AggHistory Proofs.AggHistoryFacts.
 
 (* the four initial states of the property satisfy the invariant *)
 Theorem C17_initial_states : forall h0 R,
@@ -88,6 +88,39 @@ Theorem C17_constructor_counters_from_instructions :
                    ++ at_cpc CAcqF false false ++ at_cpc CLoad false false ++ at_cpc (CCopy []) false false
                    ++ at_cpc CRelF false false ++ at_cpc CRelE false false ++ at_cpc CDone false false.
 Proof. exact ctor_pcs_from_program. Qed.
+
+(* histories of several LIVE sessions of one output file (older aggregator objects stay in use next to newer ones;
+   sequential: each submission completes, or is interrupted after its claim, before the next operation). From a file
+   holding rows R, after ANY such history over the subjects subs, a fresh session resubmitting every subject ends with
+   the earlier rows unchanged and in place, exactly one row per name, each subject present with its payload, no other
+   rows -- and whatever is submitted afterwards through any session, old or new, changes nothing *)
+Theorem C17_live_sessions_history : forall val subs R ops,
+  NoDup (names R) -> (forall r, In r R -> snd r = val (fst r)) -> Forall (op_of val subs) ops ->
+  let s1 := qrun (qstart R) ops in
+  let s2 := qrun (qstep s1 QNew) (resubmit val subs) in
+  (exists mid, qout s1 = R ++ mid) /\ (exists t, qout s2 = qout s1 ++ t)
+  /\ NoDup (names (qout s2))
+  /\ (forall n, In n subs -> In (n, val n) (qout s2))
+  /\ (forall r, In r (qout s2) -> snd r = val (fst r) /\ In (fst r) (names R ++ subs))
+  /\ (forall more, Forall (fun o => match o with QNew => False | QOk n _ | QDie n => In n subs end) more ->
+        qrun s2 more = s2).
+Proof. exact live_sessions_history. Qed.
+
+(* ... and at every moment of every such history the output rows have distinct names, the buffer has distinct entries
+   and lists every recorded name (so a recorded subject is never evaluated again) *)
+Theorem C17_live_sessions_invariant : forall R ops,
+  NoDup (names R) -> QInv (qrun (qstart R) ops).
+Proof. intros R ops H. apply qrun_inv, qstart_inv, H. Qed.
+
+(* non-vacuity: an interrupted claim of s2, a second session, s1 through the new and then through the old session;
+   the fresh session's resubmission leaves exactly one row per subject *)
+Example C17_live_sessions_nonvacuous :
+  let s1 := [115; 49] in let s2 := [115; 50] in
+  let val := fun n : name => if name_eqb n s1 then 1 else 2 in
+  let ops := [QDie s2; QNew; QOk s1 1; QOk s1 1] in
+  Forall (op_of val [s1; s2]) ops /\
+  qout (qrun (qstep (qrun (qstart []) ops) QNew) (resubmit val [s1; s2])) = [(s1, 1); (s2, 2)].
+Proof. cbv zeta. split; [repeat (constructor; [cbn; tauto|]); constructor|vm_compute; reflexivity]. Qed.
 
 Theorem C17_scheduler_sound : forall ms e, exec_event ms e = ms \/ mstep ms (exec_event ms e).
 Proof. exact exec_event_sound. Qed.
